@@ -10,6 +10,7 @@ import (
 	"sort"
 	"strings"
 	"sync"
+	"sync/atomic"
 	"time"
 
 	_ "github.com/lmorg/murex/builtins/pipes/streams"
@@ -411,3 +412,72 @@ func namedDrive(args []string) int {
 }
 
 func init() { register("named-drive", namedDrive) }
+
+// named-storm: one goroutine creates and deletes a name as fast as it can while others look it up - the schedule the
+// scheduled replay cannot produce (no gate sits between the registry's unlock and the caller's use of the result).
+// Reports look-ups that returned neither a pipe nor an error; an unsynchronised access kills the process
+// ("fatal error: concurrent map read and map write"), which the driver reports.
+func namedStorm(args []string) int {
+	fs := flag.NewFlagSet("named-storm", flag.ExitOnError)
+	ms := fs.Int("ms", 1500, "duration per registry in milliseconds")
+	regs := fs.Int("n", 4, "registries (in parallel)")
+	getters := fs.Int("getters", 6, "look-up goroutines per registry")
+	fs.Parse(args)
+	var lookups, nilnil, errs atomic.Int64
+	var wg sync.WaitGroup
+	for r := 0; r < *regs; r++ {
+		nm := pipes.NewNamed()
+		n := &nm
+		stop := make(chan struct{})
+		wg.Add(1)
+		go func() {
+			defer wg.Done()
+			for {
+				select {
+				case <-stop:
+					return
+				default:
+				}
+				n.CreatePipe("s", "std", "")
+				n.Delete("s")
+				n.CreatePipe("t", "std", "")
+				n.Dump()
+				n.Delete("t")
+			}
+		}()
+		for g := 0; g < *getters; g++ {
+			wg.Add(1)
+			go func(g int) {
+				defer wg.Done()
+				name := "s"
+				if g%2 == 1 {
+					name = "t"
+				}
+				for {
+					select {
+					case <-stop:
+						return
+					default:
+					}
+					io, err := n.Get(name)
+					lookups.Add(1)
+					if err != nil {
+						errs.Add(1)
+					} else if io == nil {
+						nilnil.Add(1)
+					}
+				}
+			}(g)
+		}
+		go func() {
+			time.Sleep(time.Duration(*ms) * time.Millisecond)
+			close(stop)
+		}()
+	}
+	wg.Wait()
+	b, _ := jsonMarshal(map[string]int64{"lookups": lookups.Load(), "nilnil": nilnil.Load(), "errors": errs.Load()})
+	fmt.Println(string(b))
+	return 0
+}
+
+func init() { register("named-storm", namedStorm) }
